@@ -41,6 +41,14 @@ ToOcc(nn) ==
    mem   |-> [n \in Node |-> nn[n + 1].mem]]
 
 HistOf(h, t) == IF Sh(t).colo = "none" THEN {} ELSE h[Sh(t).colo]
+
+\* tasks whose placement was decided by the application (task description carries slots)
+IsSup(t) == Len(Sup(t)) > 0
+SupP(t)  == ToPlacement(Sup(t))
+FitsNowT(o, t, h) == IF IsSup(t) THEN SupUsable(SupP(t)) /\ CanTake(o, SupP(t))
+                     ELSE Fits(o, Sh(t), HistOf(h, t), FALSE, FALSE)
+FitsIdleT(t, h)   == IF IsSup(t) THEN SupUsable(SupP(t)) /\ CanTake(InitOcc, SupP(t))
+                     ELSE FitsIdle(Sh(t), HistOf(h, t))
 Tags == {Sh(t).colo : t \in Uids} \ {"none"}
 
 Init ==
@@ -119,17 +127,22 @@ Step ==
                  /\ where' = [where EXCEPT ![t] = "granted"]
                  /\ hist' = IF sh.colo = "none" THEN hist ELSE [hist EXCEPT ![sh.colo] = NodesOf(p)]
                  /\ errs' = errs \cup e0
-                      \cup E(ShapeRanks(sh, p),  "C02.Ranks")
-                      \cup E(ShapeNodes(sh, p),  "C02.NodeExists")
-                      \cup E(ShapeCores(sh, p),  "C02.CoresPerRank")
-                      \cup E(ShapeGpus(sh, p),   "C02.GpusPerRank")
-                      \cup E(ShapeLfsMem(sh, p), "C02.LfsMemPerRank")
-                      \cup E(ShapeRpn(sh, p),    "C02.RanksPerNode")
-                      \cup E(ShapeColo(sh, p, hs), "C02.Colocate")
-                      \cup E(~Oversize(sh),      "C02.OversizeGranted")
+                      \cup (IF IsSup(t)
+                            THEN \* the application's placement is the requested shape
+                                 E(p = SupP(t), "C02.SuppliedNotHonored")
+                                 \cup E(SupInRange(p), "C01.OnlyNodes")
+                            ELSE E(ShapeRanks(sh, p),  "C02.Ranks")
+                                 \cup E(ShapeNodes(sh, p),  "C02.NodeExists")
+                                 \cup E(ShapeCores(sh, p),  "C02.CoresPerRank")
+                                 \cup E(ShapeGpus(sh, p),   "C02.GpusPerRank")
+                                 \cup E(ShapeLfsMem(sh, p), "C02.LfsMemPerRank")
+                                 \cup E(ShapeRpn(sh, p),    "C02.RanksPerNode")
+                                 \cup E(ShapeColo(sh, p, hs), "C02.Colocate")
+                                 \cup E(~Oversize(sh),      "C02.OversizeGranted"))
                       \cup E(H[t] = <<>>,        "C04.GrantedTwice")
                       \cup PoolErrs(lp, where')
-                      \cup (IF ShapeNodes(sh, p) /\ ShapeCores(sh, p) /\ ShapeGpus(sh, p)
+                      \cup (IF (IF IsSup(t) THEN SupInRange(p)
+                                ELSE ShapeNodes(sh, p) /\ ShapeCores(sh, p) /\ ShapeGpus(sh, p))
                             THEN E(SelfDisjoint(p),  "C01.RanksOverlap")
                                  \cup E(CoresFree(O, p), "C01.GrantedBusyCore")
                                  \cup E(GpusFree(O, p),  "C01.GrantedBusyGpu")
@@ -140,7 +153,7 @@ Step ==
                             ELSE {})
                       \cup (IF inpass /\ T.scattered
                             THEN UNION {E(~(pool = {t, u} /\ Sh(u).prio > sh.prio /\ ~Sh(u).named_env
-                                            /\ Fits(O, Sh(u), HistOf(hist, u), FALSE, FALSE)),
+                                            /\ FitsNowT(O, u, hist)),
                                           "C04.PriorityInversion") : u \in pool \ {t}}
                             ELSE {})
                  /\ UNCHANGED <<rep, rel, named, namedc, compl>>
@@ -151,7 +164,7 @@ Step ==
                ELSE \* raise
                  /\ where' = [where EXCEPT ![t] = "raised"]
                  /\ errs' = errs \cup e0 \cup E(lo = O, "C01.MapChangedSilently")
-                      \cup E(Oversize(sh) \/ ~FitsIdle(sh, hs) \/ e.legit, "C04.FalseFailure")
+                      \cup E(Oversize(sh) \/ ~FitsIdleT(t, hist) \/ e.legit, "C04.FalseFailure")
                       \cup PoolErrs(lp, where')
                  /\ UNCHANGED <<H, rep, rel, hist, named, namedc, compl>>
           [] e.ev = "Adv" ->
@@ -220,12 +233,12 @@ Step ==
                     \* a named task does not stay in the pool once the request was handled
                     \cup (IF e.cancel_drained THEN UNION {E(t \notin namedc, "C08.NamedStillWaiting") : t \in lp} ELSE {})
                     \cup (IF T.scattered /\ e.quiet THEN
-                            LET fits(t) == Fits(lo, Sh(t), HistOf(hist, t), FALSE, FALSE)
+                            LET fits(t) == FitsNowT(lo, t, hist)
                                 nonenv  == {t \in lp : ~Sh(t).named_env} IN
                                (IF Cardinality(lp) = 1 /\ nonenv = lp
                                 THEN UNION {E(~fits(t), "C04.AloneNotStarted") : t \in lp} ELSE {})
                           \cup (IF Holding(H) = {} /\ nonenv # {} /\ nonenv = lp
-                                THEN E(\E t \in lp : ~FitsIdle(Sh(t), HistOf(hist, t)), "C04.IdleStartsNone")
+                                THEN E(\E t \in lp : ~FitsIdleT(t, hist), "C04.IdleStartsNone")
                                      \cup (IF Cardinality(lp) = 1 THEN {"C04.UnfitAloneNotFailed"} ELSE {})
                                 ELSE {})
                           ELSE {})
